@@ -572,6 +572,21 @@ func runPipeline(data []byte) []stageOut {
 		}
 		return nil
 	})
+	// validation of the document AS PARSED, before any calculation has filled in what is missing
+	guard("validate-raw", &outs, func() error {
+		obj, err := gobl.Parse(data)
+		if err != nil {
+			return nil
+		}
+		if v, ok := obj.(interface{ Validate() error }); ok {
+			_ = v.Validate()
+		}
+		if e, ok := obj.(*gobl.Envelope); ok {
+			_ = e.Verify()
+			_, _ = e.Digest()
+		}
+		return nil
+	})
 	env := parseEnv(data, &outs, true)
 	if env == nil {
 		return outs
@@ -616,6 +631,11 @@ func runPipeline(data []byte) []stageOut {
 			_ = e.VerifySignature(s)
 			_ = e.VerifySignature(s, c14key.Public())
 		}
+		return err
+	})
+	step("sign-nil-key", func(e *gobl.Envelope) error {
+		err := e.Sign(nil)
+		e.Signatures = nil
 		return err
 	})
 	step("sign", func(e *gobl.Envelope) error { return e.Sign(c14key) })
@@ -768,7 +788,9 @@ func c14work(args []string) int {
 				if strings.Contains(rel, "+") {
 					rs = richStride // the per-addon variants of the invoice and the order
 				}
-				if n > skip && n%nshards == shard && (n/nshards)%rs == (offset+int(seed))%rs {
+				// a whole top-level member missing or null is always tried (a validator that assumes its presence)
+				top := strings.Count(path, "/") == 1 && (kind == "delete" || kind == "null") && nrandom > 0
+				if n > skip && n%nshards == shard && (top || (n/nshards)%rs == (offset+int(seed))%rs) {
 					process(&c14input{n: n, doc: rel, path: path, kind: kind, data: mk()})
 				}
 				return
